@@ -464,9 +464,27 @@ func (s *Script) evalWithRoot(stack, data, root any) (any, Expr) {
 // panics when both hold the same uncomparable type (two slices, two maps);
 // in a script such values are simply not equal.
 func sameValue(left, right any) bool {
-	if lt := reflect.TypeOf(left); lt != nil && !lt.Comparable() {
-		return false
+	if lt := reflect.TypeOf(left); lt != nil {
+		if !lt.Comparable() {
+			return false
+		}
+		switch lt.Kind() {
+		case reflect.Struct, reflect.Array:
+			return sameHolder(left, right)
+		}
 	}
+	return left == right
+}
+
+// sameHolder compares two struct or array values. Their type is comparable
+// but a field or element of interface type can hold a slice or a map and ==
+// then panics; such values are not equal either.
+func sameHolder(left, right any) (same bool) {
+	defer func() {
+		if recover() != nil {
+			same = false
+		}
+	}()
 	return left == right
 }
 
